@@ -60,7 +60,7 @@ def env : Env :=
 def table (k1 : Option Bytes) (v1 : Option Bytes) (k2 : Option Bytes) (v2 : Option Bytes) (t : Bytes) : Option Bytes :=
   if some t == k1 then v1 else if some t == k2 then v2 else none
 
-def rewrite (line search replace : Bytes) (o : StyleOpts) (plurals : Bool)
+def rewrite (line search replace : Bytes) (o : StyleOpts) (plurals cli : Bool)
     (forms : Option Bytes × Option Bytes × Option Bytes × Option Bytes) : String :=
   let A := OpsCase.A
   let ls := (parse A search).getLast?
@@ -69,7 +69,7 @@ def rewrite (line search replace : Bytes) (o : StyleOpts) (plurals : Bool)
     { A := A, env := env, opts := o, plurals := plurals
       sing := table ls forms.1 lr forms.2.2.1
       plur := table ls forms.2.1 lr forms.2.2.2
-      search := search, replace := replace }
+      search := search, replace := replace, cliPath := cli }
   match lineHunks cfg line with
   | none => "r nohunk"
   | some es =>
@@ -91,8 +91,9 @@ def dispatch : List String → Option String
         | _, _, _, _ => none
       | _ => none
     match ofHex hl, ofHex hs, ofHex hr, parseOpts so, forms,
-        (if p == "p0" then some false else if p == "p1" then some true else none) with
-    | some l, some s, some r, some o, some f, some pl => some (rewrite l s r o pl f)
+        (if p == "p0" then some (false, false) else if p == "p1" then some (true, false)
+         else if p == "q0" then some (false, true) else if p == "q1" then some (true, true) else none) with
+    | some l, some s, some r, some o, some f, some pl => some (rewrite l s r o pl.1 pl.2 f)
     | _, _, _, _, _, _ => some "bad-req"
   | ["filtercompat", ht, st] =>
     match ofHex ht, (if st == "all" then some Gen.allStyles else names st) with
